@@ -139,6 +139,19 @@ def hydro_vars_for(ndim, kind="rvp"):
             + [(f"B_{c}_right", "d") for c in comps]
             + [("pressure", "d"), ("temperature", "d")]
         )
+    if kind == "rvp-rev":
+        # the components of a vector are neither adjacent nor in x, y, z order (custom builds reorder their outputs)
+        v = [(f"velocity_{c}", "d") for c in reversed(comps)]
+        return [v[0], ("density", "d")] + v[1:2] + [("pressure", "d")] + v[2:]
+    if kind == "mhd-rev":
+        r = comps[1:] + comps[:1]
+        return (
+            [(f"B_{c}_left", "d") for c in r]
+            + [("density", "d")]
+            + [(f"velocity_{c}", "d") for c in reversed(comps)]
+            + [(f"B_{c}_right", "d") for c in reversed(r)]
+            + [("pressure", "d"), ("temperature", "d")]
+        )
     if kind == "odd":
         return [("density", "d"), ("scalar_00", "d"), ("metallicity", "d"), ("thermal_pressure", "d"), ("internal_energy", "d")]
     raise KeyError(kind)
@@ -560,12 +573,13 @@ def hilbert_owner(tree, bound_key):
 STD_PART = [("mass", "d"), ("identity", "i"), ("levelp", "i"), ("family", "b"), ("tag", "b")]
 
 
-def part_descriptor(ndim, extra=STD_PART, with_pos=True, with_vel=True):
+def part_descriptor(ndim, extra=STD_PART, with_pos=True, with_vel=True, reverse=False):
     d = []
+    comps = "xyz"[:ndim][::-1] if reverse else "xyz"[:ndim]
     if with_pos:
-        d += [(f"position_{c}", "d") for c in "xyz"[:ndim]]
+        d += [(f"position_{c}", "d") for c in comps]
     if with_vel:
-        d += [(f"velocity_{c}", "d") for c in "xyz"[:ndim]]
+        d += [(f"velocity_{c}", "d") for c in comps]
     return d + list(extra)
 
 
@@ -586,8 +600,14 @@ def make_part(desc, counts, localseed=4, nstar_bytes=4):
     return {"desc": list(desc), "data": data, "localseed": localseed, "nstar_bytes": nstar_bytes, "counts": list(counts)}
 
 
-def make_sink(ndim, nrows, legacy=False, extra_cols=()):
-    keys = ["id", "msink"] + list("xyz"[:ndim]) + ["v" + c for c in "xyz"[:ndim]] + ["level"] + list(extra_cols)
+def make_sink(ndim, nrows, legacy=False, extra_cols=(), order="xyz"):
+    comps = "xyz"[:ndim]
+    if order == "rev":
+        comps = comps[::-1]
+    elif order == "rot":
+        comps = comps[1:] + comps[:1]
+    vcomps = comps[::-1] if order == "rot" else comps
+    keys = ["id", "msink"] + list(comps) + ["v" + c for c in vcomps] + ["level"] + list(extra_cols)
     if legacy:
         units = ["[1]", "[g]"] + ["[cm]"] * ndim + ["[cm/s]"] * ndim + ["[1]"] + ["[s]"] * len(extra_cols)
     else:
